@@ -58,7 +58,7 @@ class CliResult:
 
 
 def run_cli(doc_or_path, opts, stem="input", suffix=".json_solc", hashseed="0", timeout=600, extra_files=None,
-            keep=False, env_extra=None, launcher=False, rlimit_as=None):
+            keep=False, env_extra=None, launcher=False, rlimit_as=None, collect_specs=False):
     """doc_or_path: a dict (written as JSON), a string containing the file text, or a path to copy."""
     cwd = tempfile.mkdtemp(prefix="gasol_cli_")
     res = CliResult()
@@ -112,6 +112,14 @@ def run_cli(doc_or_path, opts, stem="input", suffix=".json_solc", hashseed="0", 
             try:
                 with open(path) as f:
                     res.files[fn] = f.read()
+            except Exception:
+                pass
+    res.specs = {}
+    if collect_specs:
+        for path in glob.glob(os.path.join(cwd, ".gasol_tmp", "gasol_*", "jsons", "*.json")):
+            try:
+                with open(path) as f:
+                    res.specs[os.path.basename(path)] = f.read()
             except Exception:
                 pass
     if not keep:
